@@ -590,6 +590,10 @@ class CFG:
         values are propagated through `x = <boolean constant / expression over known literals>` and element-wise tuple copies."""
         sn = self.nodes[s]
         killed = {d.name for d in sn.defs}
+        stores = _inplace_stores(sn.ast) if sn.kind == "stmt" and a2 else ()
+        if stores:
+            # `self.t += 1`, `buf.size = 0`, `flags[i] = True`: a literal that reads the updated field / element no longer holds
+            a2 = frozenset((k, v) for k, v in a2 if not _reads_store(k, stores))
         if not killed:
             return a2
         val = None
@@ -629,6 +633,65 @@ class CFG:
                     "for " + ast.unparse(n.ast.target) if n.kind == "for" else ast.unparse(n.ast).split("\n")[0])
                 out.append(f"L{n.lineno}: {txt[:70]}")
         return out
+
+
+def _inplace_stores(stmt) -> tuple:
+    """(kind, base text[, attr]) of the attribute / element stores of one simple statement."""
+    if isinstance(stmt, ast.Assign):
+        ts = list(stmt.targets)
+    elif isinstance(stmt, (ast.AugAssign, ast.AnnAssign)):
+        ts = [stmt.target]
+    else:
+        return ()
+    out = []
+    while ts:
+        t = ts.pop()
+        if isinstance(t, (ast.Tuple, ast.List)):
+            ts += list(t.elts)
+        elif isinstance(t, ast.Starred):
+            ts.append(t.value)
+        elif isinstance(t, ast.Attribute):
+            out.append(("attr", ast.unparse(t.value), t.attr))
+        elif isinstance(t, ast.Subscript):
+            out.append(("sub", ast.unparse(t.value)))
+    return tuple(out)
+
+
+_READS_CACHE: dict = {}
+
+
+def _reads_store(txt: str, stores: tuple) -> bool:
+    """Does the literal ``txt`` read a field / an element that one of ``stores`` writes?  A stored field `b.a` is read by `b.a`
+    (and anything below it); a stored element `b[i]` by any subscript of `b` and by any call that receives `b` whole or is a method
+    of `b` other than a pure shape question (`len(b)`, `b.shape`, `b is None` do not change)."""
+    key = (txt, stores)
+    if key in _READS_CACHE:
+        return _READS_CACHE[key]
+    res = False
+    try:
+        tree = ast.parse(txt, mode="eval")
+    except SyntaxError:
+        tree = None
+    if tree is not None:
+        attrs = {(b, a) for k, b, *r in stores if k == "attr" for a in r}
+        subs = {b for k, b, *r in stores if k == "sub"}
+        for x in ast.walk(tree):
+            if isinstance(x, ast.Attribute) and (ast.unparse(x.value), x.attr) in attrs:
+                res = True
+            elif isinstance(x, ast.Subscript) and ast.unparse(x.value) in subs:
+                res = True
+            elif isinstance(x, ast.Call) and subs:
+                fn = x.func
+                if isinstance(fn, ast.Name) and fn.id in ("len", "isinstance", "type", "id"):
+                    continue
+                if isinstance(fn, ast.Attribute) and ast.unparse(fn.value) in subs:
+                    res = True
+                elif any(ast.unparse(a) in subs for a in x.args):
+                    res = True
+            if res:
+                break
+    _READS_CACHE[key] = res
+    return res
 
 
 _IDENT_CACHE: dict = {}
